@@ -1292,6 +1292,80 @@ func (c *c07Ctx) strings(quick bool, corpus []c07File) {
 		}
 	}
 	c.strTable(tmuts, "corpus-tables-mutated")
+
+	// the key column: every key line (first and later ones) with the blanks between key and
+	// location removed or reduced, with a key as wide as or wider than the column, and tables
+	// whose first line fixes a narrower or wider column than the later lines use
+	var kmuts []string
+	synth := "     source          1..133\n                     /organism=\"x\"\n     misc_feature    10000..20000\n                     /note=\"a\"\n     CDS             complement(51..133)\n                     /codon_start=1\n"
+	for _, tb := range append([]string{synth}, tables...) {
+		ls := strings.SplitAfter(tb, "\n")
+		var keyLines []int
+		for i, ln := range ls {
+			if len(ln) > 6 && strings.HasPrefix(ln, "     ") && ln[5] != ' ' {
+				keyLines = append(keyLines, i)
+			}
+		}
+		if quick && len(keyLines) > 12 {
+			keyLines = append(append([]int{}, keyLines[:6]...), keyLines[len(keyLines)-6:]...)
+		}
+		for _, i := range keyLines {
+			f := strings.Fields(ls[i])
+			if len(f) < 2 {
+				continue
+			}
+			key, loc := f[0], strings.Join(f[1:], " ")
+			variants := []string{
+				"     " + key + loc + "\n",                                             // blanks lost: fused token
+				"     " + key + " " + loc + "\n",                                       // one blank
+				"     " + key + strings.Repeat(" ", 30) + loc + "\n",                   // too many blanks
+				"     " + key + strings.Repeat("x", 16-len(key)%16) + " " + loc + "\n", // key fills the column
+				"     " + key + "_averyveryverylongkeyname " + loc + "\n",              // key wider than the column
+				"   " + key + "            " + loc + "\n",                              // narrower indent
+				"     " + key + "\t" + loc + "\n",
+			}
+			for _, v := range variants {
+				kmuts = append(kmuts, strings.Join(ls[:i], "")+v+strings.Join(ls[i+1:], ""))
+			}
+		}
+		// first line with another column width, the rest as written
+		if len(keyLines) > 1 {
+			f := strings.Fields(ls[keyLines[0]])
+			if len(f) >= 2 {
+				for _, w := range []int{1, 6, 11, 12, 20} {
+					kmuts = append(kmuts, strings.Join(ls[:keyLines[0]], "")+"     "+f[0]+strings.Repeat(" ", w)+strings.Join(f[1:], " ")+"\n"+strings.Join(ls[keyLines[0]+1:], ""))
+				}
+			}
+		}
+	}
+	c.strTable(kmuts, "key-column-mutated")
+	// … and the same tables inside a record read by the scanner
+	for _, cf := range corpus {
+		if !cf.gb || len(cf.data) > 20000 {
+			continue
+		}
+		i := bytes.Index(cf.data, []byte("\nFEATURES"))
+		if i < 0 {
+			continue
+		}
+		rest := cf.data[i+1:]
+		j := bytes.IndexByte(rest, '\n')
+		body := rest[j+1:]
+		e := 0
+		for _, ln := range splitLines(body) {
+			if len(ln) > 0 && ln[0] != ' ' {
+				break
+			}
+			e += len(ln)
+		}
+		head, tail := string(cf.data[:i+1+j+1]), string(body[e:])
+		own := string(body[:e])
+		for _, km := range kmuts {
+			if strings.HasPrefix(km, own[:minInt(len(own), 40)]) || strings.Contains(km, "misc_feature    10000..20000") {
+				c.scanCase("key-column/"+cf.name, []byte(head+km+tail), false)
+			}
+		}
+	}
 }
 
 // ---------------------------------------------------------------------------
